@@ -515,7 +515,13 @@ def decoder_rules(run, r1, r2, f, aug):
         run.instance(r2, "decode_dispatch_data: dispatch-table decoding ends on stop_bit", where(w), ok=okw)
         if not okw:
             run.violation(r2, "decode_dispatch_data|dtbl-stop", "dispatch-table decoding loop does not test stop_bit", where(w))
-    # error cells: order appended after the definitions vs augment_methods' numbering
+    error_cell_order(run, r2, f, aug)
+
+
+def error_cell_order(run, r2, f, aug):
+    """decoder: the two error cells follow the definitions in the order augment_methods numbers them (ambiguous = n, not implemented = n + 1)"""
+    body = f["body"]
+    where = lambda n: (f["file"], n["l"] if isinstance(n, dict) else f["line"])
     appended = []
     for n in astq.walk(body):
         if n.get("k") == "BinaryOperator" and n.get("op") == "=":
